@@ -65,6 +65,32 @@ fn judge(rep: &mut Rep, data: &[u8], cuts: [usize; 4], salt: &[u8; 16], key: &[u
     }
 }
 
+/// Like `judge`, for inputs too long to be written into a replay line: the replay names the file lengths (the content is
+/// regenerated pseudo-randomly; these classes depend on lengths only).
+fn judge_lens(rep: &mut Rep, data: &[u8], cuts: [usize; 4], salt: &[u8; 16], key: &[u8; 32], class: &str) {
+    let f = [&data[..cuts[0]], &data[cuts[0]..cuts[1]], &data[cuts[1]..cuts[2]], &data[cuts[2]..cuts[3]], &data[cuts[3]..]];
+    let replay = || format!("lens {} {} {} {} {}", f[0].len(), f[1].len(), f[2].len(), f[3].len(), f[4].len());
+    let want = model(&[data], salt, key);
+    rep.ev(3);
+    let w = guard(|| login_integrity_check_windows(f[0], f[1], f[2], f[3], f[4], salt, key));
+    let m = guard(|| login_integrity_check_mac(f[0], f[1], f[2], f[3], f[4], salt, key));
+    let g = guard(|| login_integrity_check_generic(data, salt, key));
+    for (name, r) in [("windows", w), ("mac", m), ("generic", g)] {
+        match r {
+            Err(e) => rep.violation(&format!("c17:panic:{}", name), format!("{} panicked: {}", name, e), replay()),
+            Ok(h) => {
+                if h != want {
+                    rep.violation(
+                        &format!("c17:{}_differs:{}", name, class),
+                        format!("{} check over files of lengths {:?} gives {}, SHA1(key|HMAC(salt, files)) gives {}", name, f.iter().map(|x| x.len()).collect::<Vec<_>>(), hex(&h), hex(&want)),
+                        replay(),
+                    );
+                }
+            }
+        }
+    }
+}
+
 /// Very large inputs (the data is regenerated from `dseed` on replay instead of being written into the replay line).
 fn judge_big(rep: &mut Rep, len: usize, dseed: u64, class: &str) {
     let mut rng = Rng::new(dseed, 0xb16);
@@ -300,6 +326,51 @@ check against SHA1(salt | 20 zero bytes). distinct = distinct (length, distribut
             rep.cell(&[len as u64, cuts[0] as u64]);
         }
         if n_sizes >= 10 {
+            // (a) a small non-empty first file followed by a second file of EVERY length in a range: wherever an
+            //     implementation keeps a staging area, some length completes it exactly, overflows it by one, ...
+            let top: usize = if big > 4 { 150_000 } else { 40_000 };
+            let pool = rng.bytes(top + 1600 + 16);
+            let salt: [u8; 16] = rng.arr();
+            let key: [u8; 32] = rng.arr();
+            let mut n = 0u64;
+            let mut l2 = sh;
+            while l2 <= top {
+                for a in [1usize, 1500] {
+                    let tail = 7 * (l2 % 2);
+                    let total_len = a + l2 + tail;
+                    let data = &pool[..total_len];
+                    judge_lens(&mut rep, data, [a, a + l2, total_len, total_len], &salt, &key, "second_file_length_sweep");
+                    n += 1;
+                }
+                l2 += 16;
+            }
+            rep.count("second_file_length_sweep_cases", n);
+            rep.distinct_extra += n;
+            // (b) five files drawn from size classes (empty, tiny, small, around and above customary buffer sizes), with a
+            //     little jitter: small files before an empty one before a large one, and every other arrangement
+            const CLASSES: [usize; 8] = [0, 1, 100, 2000, 20_000, 33_000, 70_000, 140_000];
+            let pool2 = rng.bytes(5 * 140_010);
+            let ncombo: usize = if big > 4 { 32768 } else { 4096 };
+            let mut c = sh;
+            let mut m = 0u64;
+            while c < ncombo {
+                let code = if big > 4 { c } else { rng.below(32768) as usize };
+                let mut cuts = [0usize; 4];
+                let mut acc = 0usize;
+                for f in 0..5 {
+                    let cls = CLASSES[(code >> (3 * f)) & 7];
+                    let len = if cls == 0 { 0 } else { cls + rng.below(4) as usize };
+                    acc += len;
+                    if f < 4 {
+                        cuts[f] = acc;
+                    }
+                }
+                judge_lens(&mut rep, &pool2[..acc], cuts, &salt, &key, "size_class_arrangements");
+                rep.cell(&[4000, code as u64]);
+                m += 1;
+                c += 16;
+            }
+            rep.count("size_class_arrangements", m);
             judge_big(&mut rep, BIG_QUICK[(sh + seed as usize) % 16], rng.next(), "above_2MiB");
             if big > 4 && sh < BIG_THOROUGH.len() {
                 judge_big(&mut rep, BIG_THOROUGH[sh], rng.next(), "above_256MiB");
@@ -333,6 +404,15 @@ pub fn replay(args: &[String]) -> Rep {
         let salt: [u8; 16] = unhex(&args[6]).try_into().unwrap_or([0; 16]);
         let key: [u8; 32] = unhex(&args[7]).try_into().unwrap_or([0; 32]);
         judge(&mut rep, &data, [c[0], c[1], c[2], c[3]], &salt, &key, "replay");
+    } else if args.len() >= 6 && args[0] == "lens" {
+        let lens: Vec<usize> = (1..6).map(|i| args[i].parse().unwrap_or(0)).collect();
+        let mut rng = Rng::new(lens.iter().sum::<usize>() as u64, 0x1e75);
+        let data = rng.bytes(lens.iter().sum());
+        let c0 = lens[0];
+        let c1 = c0 + lens[1];
+        let c2 = c1 + lens[2];
+        let c3 = c2 + lens[3];
+        judge_lens(&mut rep, &data, [c0, c1, c2, c3], &rng.arr(), &rng.arr(), "replay");
     } else if args.len() >= 4 && args[0] == "big" {
         judge_big(&mut rep, args[1].parse().unwrap_or(0), args[2].parse().unwrap_or(0), "replay");
     } else if args.len() >= 2 && args[0] == "reconnect" {
